@@ -33,6 +33,11 @@ var c14Prefixes = []string{"ab", "in", "or", "do", "if", "no", "an", "en", "fu",
 
 func genC14(t *rapid.T) C14Case {
 	c14Prefix := rapid.SampledFrom(c14Prefixes).Draw(t, "prefix")
+	// the planted identifier is the prefix itself (cursor at its end) or continues after the cursor
+	tail := "q"
+	if !reflua.IsKeyword(c14Prefix) && rapid.Bool().Draw(t, "cursorAtTokenEnd") {
+		tail = ""
+	}
 	n := rapid.IntRange(1, 2).Draw(t, "nfiles")
 	var toksPerFile [][]luagen.Tok
 	for i := 0; i < n; i++ {
@@ -60,7 +65,7 @@ func genC14(t *rapid.T) C14Case {
 	bounds = append(bounds, len(toks))
 	plant := func(at int) ([]luagen.Tok, int) {
 		ins := []luagen.Tok{{Text: "local", Var: luagen.VarNone, NL: true, Indent: 1, SelfOf: -1}, {Text: "zq", Var: luagen.VarNone, SelfOf: -1},
-			{Text: "=", Var: luagen.VarNone, SelfOf: -1}, {Text: c14Prefix + "q", Var: luagen.VarNone, SelfOf: -1}}
+			{Text: "=", Var: luagen.VarNone, SelfOf: -1}, {Text: c14Prefix + tail, Var: luagen.VarNone, SelfOf: -1}}
 		out := append([]luagen.Tok{}, toks[:at]...)
 		out = append(out, ins...)
 		if at < len(toks) {
@@ -80,7 +85,7 @@ func genC14(t *rapid.T) C14Case {
 	}
 	replace := func(at int) ([]luagen.Tok, int) {
 		out := append([]luagen.Tok{}, toks...)
-		out[at].Text = c14Prefix + "q"
+		out[at].Text = c14Prefix + tail
 		out[at].Var = luagen.VarNone
 		return out, at
 	}
